@@ -1,6 +1,7 @@
 use crate::common::{Args, Out};
 pub mod calendar;
 pub mod conn_enum;
+pub mod cookies;
 pub mod exchange;
 pub mod framing;
 pub mod head;
@@ -31,6 +32,8 @@ pub fn run(args: &Args, out: Out) {
         "date-sweep" => calendar::run_sweep(args, out),
         "json-scalars" => logjson::run_scalars(args, out),
         "json-lines" => logjson::run_lines(args, out),
+        "cookie-set" => cookies::run_set(args, out),
+        "cookie-req" => cookies::run_req(args, out),
         "headers-enum" => headers::run_enum(args, out),
         "ascii-ctors" => headers::run_ctors(args, out),
         "framing-gen" => framing::run_gen(args, out),
